@@ -97,6 +97,12 @@ class ContainerBase:
     def mk_copy(self, copy_node: bool = False) -> ContainerBase:
         """Make a copy of self."""
         copied = copy.copy(self)
+        # the copy must not share mutable property values (MetricValue, CoreData, lists, ...) with self,
+        # otherwise a change of the copy would change self (and everything else that shares the value).
+        for _, prop in self.sorted_container_properties():
+            local_var_name = getattr(prop, '_local_var_name', None)
+            if local_var_name is not None and local_var_name in self.__dict__:
+                copied.__dict__[local_var_name] = copy.deepcopy(self.__dict__[local_var_name])
         if copy_node and self.node is not None:
             copied.node = xml_utils.copy_element(self.node)
         return copied
